@@ -113,15 +113,38 @@ def statement (cfg : Cfg) (th : Nat → Sev) (sev : Sev) (tag : Option Str) (ite
       let (final, ev2) := lchain init (items.drop k)
       ev1 ++ evT ++ ev2 ++ destroy cfg final
 
+/-- insertions into two named streams that are alive at the same time, alternating a, b, a, b, … -/
+def interleave2 : Obj → Obj → List Item → List Item → Obj × Obj × List Event
+  | a, b, [], js => let (b', ev) := lchain b js; (a, b', ev)
+  | a, b, i :: is, [] => let (a', ev) := lchain a (i :: is); (a', b, ev)
+  | a, b, i :: is, j :: js =>
+    let (a1, e1) := insertInto a i
+    let (b1, e2) := insertInto b j
+    let (a2, b2, ev) := interleave2 a1 b1 is js
+    (a2, b2, e1 ++ e2 ++ ev)
+
+/-- Two named streams open at once in one scope:
+`auto a = logger::sa(ta); auto b = logger::sb(tb); a << i1; b << j1; a << i2; …` — at the end of the
+scope `b` is destroyed first, then `a`.  Each stream owns its own record and buffer. -/
+def overlap (cfg : Cfg) (th : Nat → Sev) (sa : Sev) (ta : Option Str) (is : List Item)
+    (sb : Sev) (tb : Option Str) (js : List Item) : List Event :=
+  -- a stream below the compile-time minimum is a null_stream: nothing happens to it at all
+  let mk := fun (sev : Sev) (tag : Option Str) =>
+    if sev < cfg.minSev then (⟨false, sev, tag, none⟩ : Obj) else construct cfg th sev tag
+  let (a, b, ev) := interleave2 (mk sa ta) (mk sb tb) is js
+  ev ++ destroy cfg b ++ destroy cfg a
+
 inductive Op where
   | setThr (n : Nat) (s : Sev)
   | stmt (sev : Sev) (tag : Option Str) (items : List Item) (named : Option Nat)
+  | overlap (sa : Sev) (ta : Option Str) (is : List Item) (sb : Sev) (tb : Option Str) (js : List Item)
   deriving Repr
 
 def run (cfg : Cfg) : (Nat → Sev) → List Op → List Event
   | _, [] => []
   | th, .setThr n s :: rest => run cfg (fun k => if k = n then s else th k) rest
   | th, .stmt sev tag items named :: rest => statement cfg th sev tag items named ++ run cfg th rest
+  | th, .overlap sa ta is sb tb js :: rest => overlap cfg th sa ta is sb tb js ++ run cfg th rest
 
 /-- the type of `logger::<sev>()` is `null_stream` iff the severity is below the compile-time minimum -/
 def streamIsNull (minSev sev : Sev) : Bool := decide (sev < minSev)
